@@ -102,6 +102,10 @@ def rule_c(repo, chk):
         sn = c.nodes_containing(srch[0])
         p = c.reach([c.entry], lambda n: n in sn, block_node=lambda n: n in dn)
         chk.ob('C19.c', p is None, srch[0], 'decoding precedes the regex search')
+        # MUST: a file is given up only because it vanished (the handler of read()) or because the regex did not match the
+        # decoded text: no other pre-filter in front of the search
+        w = must_pass(cf, lambda n: n in sn or n.kind == 'handler')
+        chk.ob('C19.c', w is None, cf, 'no file is dismissed before the regex has searched its decoded text (except a vanished one)', w or '')
     rd = [c for c in calls_in(cf, 'read')]
     ok = bool(rd) and all(any(handler_types(h) & {'FileNotFoundError', 'OSError', 'IOError', 'Exception'} for t in enclosing_handlers(repo.enclosing_stmt(c), cf) for h in t.handlers) for c in rd)
     chk.ob('C19.c', ok, cf, 'a file that vanished between listing and reading is skipped')
